@@ -5,6 +5,7 @@ operations; SIGKILL = any prefix of that list (completed system calls persist).
 -/
 import LfsModel.Crash
 import LfsModel.CrashRerun
+import LfsModel.CrashIno
 
 namespace C09
 open Crash
@@ -54,5 +55,20 @@ theorem scenario_runs (n : Nat) (bursts : List Bytes) (fs : Fs) :
   exact ⟨fs', h⟩
 
 example : (exec (fun b => b.length) (fun _ => none) (cleanOps (fun b => b.length) 0 [[1,2],[3]])).isSome = true := by decide
+
+/-! ### the same with hard links as they are: a second name of one file, not a copy -/
+
+/-- one step of the discipline (now including: no write to an inode that has a name in lfs/objects)
+    keeps every object's content hashing to its name -/
+theorem step_keeps_objects_intact_with_links (Hf : Crash.Bytes → Crash.Oid) (fs fs' : CrashI.Fs) (op : CrashI.Op)
+    (hi : CrashI.Intact Hf fs) (hw : CrashI.Wf fs) (hs : CrashI.step Hf fs op = some fs') :
+    CrashI.Intact Hf fs' ∧ CrashI.Wf fs' := CrashI.step_inv Hf fs fs' op hi hw hs
+
+/-- SIGKILL at any instant = any prefix of the operation list: local storage is intact there, hard
+    links included -/
+theorem kill_anywhere_leaves_storage_intact_with_links (Hf : Crash.Bytes → Crash.Oid) (ops : List CrashI.Op)
+    (fsEnd : CrashI.Fs) (he : CrashI.exec Hf {} ops = some fsEnd) (k : Nat) :
+    ∃ fsK, CrashI.exec Hf {} (ops.take k) = some fsK ∧ CrashI.Intact Hf fsK :=
+  CrashI.prefix_intact Hf ops {} fsEnd (CrashI.empty_inv Hf).1 (CrashI.empty_inv Hf).2 he k
 
 end C09
